@@ -108,6 +108,22 @@ Section AliasFree.
     apply subi_bound; [apply in_band_Forall; exact Ek | apply bandD_in_band with (D := D); exact Hm1].
   Qed.
 
+  (* bilinearity at zero: a factor that vanishes identically kills the product *)
+  Lemma prod2_zero_r (U V : field F) (k : idx) : (forall x, V x = 0) -> prod2 F D N Kc U V k = 0.
+  Proof.
+    intros H. unfold prod2, msk at 1. destruct (in_band Kc k); [|reflexivity].
+    unfold cconv2. rewrite (fsum_map_ext F _ _ (fun _ => 0)).
+    - rewrite fsum_map_zero. ring.
+    - intros m _. unfold msk. destruct (in_band Kc (wrapD N (subi k m))); [rewrite H|]; ring.
+  Qed.
+  Lemma prod2_zero_l (U V : field F) (k : idx) : (forall x, U x = 0) -> prod2 F D N Kc U V k = 0.
+  Proof.
+    intros H. unfold prod2, msk at 1. destruct (in_band Kc k); [|reflexivity].
+    unfold cconv2. rewrite (fsum_map_ext F _ _ (fun _ => 0)).
+    - rewrite fsum_map_zero. ring.
+    - intros m _. unfold msk at 1. destruct (in_band Kc m); [rewrite H|]; ring.
+  Qed.
+
   (* results vanish outside the retained band *)
   Theorem prod_out_of_band (U V W : field F) (k : idx) : in_band Kc k = false ->
     prod2 F D N Kc U V k = 0 /\ prod3 F D N Kc U V W k = 0.
